@@ -35,6 +35,9 @@ CFG = dict(
         "empty-circumcircle triangulation for EVERY point set in general position is kept as `def C20_full : Prop` (Props/C20.lean) and is not proved. "
         "The winding / positive-area / non-overlap / Delaunay / vertex / index clauses are decided per run by the verified checkers "
         "(c20_checkers_sound, vertices_check_sound) applied to the implementation's OUTPUT in exact arithmetic: sound per input, sampled over inputs",
+        "float residue of the UNCHANGED library, observed: when a far point is inserted after a triangle of three tightly clustered points exists "
+        "(spacing/distance < 2^-26) its float64 in-circle test cancels catastrophically and the output is not Delaunay / overlaps; the generators "
+        "avoid it (frame first, one cluster last, dyadic coordinates) — see notes",
         "Go evaluates orient / inCircle in float64 (rounding); all theorems are over exact arithmetic (ordered rings/fields). The oracle judges the float "
         "implementation's output against the exact predicates, so a float sign error on a near-degenerate input would show up as an oracle failure; generators keep predicates well-conditioned",
         "coverage of the convex hull is not part of C20 and not checked (a finite super-triangle may drop thin hull triangles; 3 nearly collinear points give zero triangles)",
@@ -64,8 +67,9 @@ CFG = dict(
              "the insertions — both hypotheses are decided per run on the model's states in exact arithmetic; the EXECUTABLE "
              "checkers for vertices, index range, strict uniform winding (= positive area), no input strictly inside a circumcircle, no two "
              "triangles sharing an interior point are proved sound (c20_checkers_sound) and are run by the driver in exact integer arithmetic on "
-             "the IEEE bit patterns of the real BowyerWatson output: sound per input, sampled over inputs (12 generator classes, 3–200 points: "
-             "uniform, clustered, near-collinear hull, scaled, offset, far offset 1e7–1e10, tiny clusters, wide, tall, low/small height). Model vs implementation triangle SETS "
+             "the IEEE bit patterns of the real BowyerWatson output: sound per input, sampled over inputs (14 generator classes, 3–200 points: "
+             "uniform, clustered, near-collinear hull, scaled, units of 1e-9/1e-7/1e+7, offset, far offset 1e7–1e10, tiny clusters, tight dyadic "
+             "clusters with spacing 2^-30…2^-50 inside ordinary frames, wide, tall, low/small height). Model vs implementation triangle SETS "
              "compared exactly on small-integer inputs, where Go's float predicates are exact.",
         note="Trusted: Lean kernel + propext/Classical.choice/Quot.sound; harness and the driver's exact float decoding; hand transcription of "
              "bowyer_watson.go (tied on integer inputs). Not proved: correctness of the incremental algorithm for all inputs (C20_full); Go evaluates "
